@@ -323,6 +323,7 @@ func runC10(r *simkit.Run, c Cfg) {
 	}
 	r.Logf("~cfg", "urls=%d extra=%d faulty=%v", nurl, len(extra), faulty)
 	nmsg := tp.Range(1, 5, "nmsg")
+	hasUnknown := false
 	r.Go("provider", func(t *simkit.Task) {
 		for i := 0; i < nmsg && !r.Failed(); i++ {
 			t.Yield("op")
@@ -333,6 +334,17 @@ func runC10(r *simkit.Run, c Cfg) {
 				maddrs = append(maddrs, must(multiaddr.NewMultiaddr(c10Addrs[tp.Choose(len(c10Addrs), "addr")])))
 			}
 			m.SetAddrs(maddrs)
+			// addresses with protocol codes this build does not know, at any
+			// position: the sender skips them, the rest must arrive intact
+			if how0 := tp.Choose(3, "unknownProto"); how0 == 0 && len(maddrs) > 0 {
+				pos := tp.Choose(len(m.Addrs)+1, "unknownPos")
+				unk := []byte{0xff, 0xff, 0x03, 1, 2}
+				m.Addrs = append(m.Addrs[:pos], append([][]byte{unk}, m.Addrs[pos:]...)...)
+				hasUnknown = true
+				r.Probe("unknown-protocol-address")
+			} else {
+				hasUnknown = false
+			}
 			if tp.Chance(1, 3, "msgExtra") {
 				m.ExtraData = tp.Bytes(1+tp.Choose(64, "mextralen"), "mextra")
 			}
@@ -354,6 +366,7 @@ func runC10(r *simkit.Run, c Cfg) {
 				m.ExtraData, m.OrigPeer = nil, ""
 				err = announce.Send(ctx, m.Cid, maddrs, sender)
 			}
+			_ = hasUnknown
 			cancel()
 			t.Logf("send #%d how=%d addrs=%d -> err=%v", i, how, na, err != nil)
 			// expectation: what every healthy endpoint decoded
